@@ -4,7 +4,7 @@
 use std::io::{Read, Write};
 use std::sync::Mutex;
 use unimock::value_chain::ValueChain;
-use unimock::Unimock;
+use unimock::*;
 use verif_harness::proto;
 use verif_harness::sched::{self, Sched};
 
@@ -16,14 +16,19 @@ struct C(Box<u64>);
 impl Drop for A { fn drop(&mut self) { DROPS.lock().unwrap().push(self.0); } }
 impl Drop for B { fn drop(&mut self) { DROPS.lock().unwrap().push(self.0); } }
 impl Drop for C { fn drop(&mut self) { DROPS.lock().unwrap().push(*self.0); } }
+/// zero-sized payload: instances cannot carry their serial, so the serials of the lent markers are queued
+/// (a chain releases its values in insertion order)
+struct Z;
+static ZQ: Mutex<std::collections::VecDeque<u64>> = Mutex::new(std::collections::VecDeque::new());
+impl Drop for Z { fn drop(&mut self) { let s = ZQ.lock().unwrap().pop_front().unwrap_or(u64::MAX); DROPS.lock().unwrap().push(s); } }
 
-enum Ref<'a> { A(&'a A), B(&'a B), C(&'a C) }
+enum Ref<'a> { A(&'a A), B(&'a B), C(&'a C), Z(&'a Z, u64) }
 impl Ref<'_> {
     fn read(&self) -> u64 {
-        match self { Ref::A(x) => x.0, Ref::B(x) => { assert_eq!(x.1, format!("p{}", x.0)); x.0 } Ref::C(x) => *x.0 }
+        match self { Ref::A(x) => x.0, Ref::B(x) => { assert_eq!(x.1, format!("p{}", x.0)); x.0 } Ref::C(x) => *x.0, Ref::Z(_, s) => *s }
     }
     fn addr(&self) -> usize {
-        match self { Ref::A(x) => *x as *const A as usize, Ref::B(x) => *x as *const B as usize, Ref::C(x) => *x as *const C as usize }
+        match self { Ref::A(x) => *x as *const A as usize, Ref::B(x) => *x as *const B as usize, Ref::C(x) => *x as *const C as usize, Ref::Z(_, s) => usize::MAX - *s as usize /* zero-sized values have no address of their own */ }
     }
 }
 
@@ -33,19 +38,43 @@ trait Lender: Sync {
 }
 impl Lender for ValueChain {
     fn lend(&self, ty: usize, s: u64) -> Ref<'_> {
-        match ty { 0 => Ref::A(self.push(A(s))), 1 => Ref::B(self.push(B(s, format!("p{s}")))), _ => Ref::C(self.push(C(Box::new(s)))) }
+        match ty { 0 => Ref::A(self.push(A(s))), 1 => Ref::B(self.push(B(s, format!("p{s}")))), 2 => Ref::C(self.push(C(Box::new(s)))), _ => { ZQ.lock().unwrap().push_back(s); Ref::Z(self.push(Z), s) } }
     }
     fn lend_mut(&mut self, ty: usize, s: u64) -> u64 {
-        match ty { 0 => { let r = self.push_mut(A(s)); r.0 } 1 => { let r = self.push_mut(B(s, format!("p{s}"))); r.0 } _ => { let r = self.push_mut(C(Box::new(s))); *r.0 } }
+        match ty { 0 => { let r = self.push_mut(A(s)); r.0 } 1 => { let r = self.push_mut(B(s, format!("p{s}"))); r.0 } 2 => { let r = self.push_mut(C(Box::new(s))); *r.0 } _ => { ZQ.lock().unwrap().push_back(s); let _r = self.push_mut(Z); s } }
     }
 }
 impl Lender for Unimock {
     fn lend(&self, ty: usize, s: u64) -> Ref<'_> {
-        match ty { 0 => Ref::A(self.make_ref(A(s))), 1 => Ref::B(self.make_ref(B(s, format!("p{s}")))), _ => Ref::C(self.make_ref(C(Box::new(s)))) }
+        match ty { 0 => Ref::A(self.make_ref(A(s))), 1 => Ref::B(self.make_ref(B(s, format!("p{s}")))), 2 => Ref::C(self.make_ref(C(Box::new(s)))), _ => { ZQ.lock().unwrap().push_back(s); Ref::Z(self.make_ref(Z), s) } }
     }
     fn lend_mut(&mut self, ty: usize, s: u64) -> u64 {
-        match ty { 0 => { let r = self.make_mut(A(s)); r.0 } 1 => { let r = self.make_mut(B(s, format!("p{s}"))); r.0 } _ => { let r = self.make_mut(C(Box::new(s))); *r.0 } }
+        match ty { 0 => { let r = self.make_mut(A(s)); r.0 } 1 => { let r = self.make_mut(B(s, format!("p{s}"))); r.0 } 2 => { let r = self.make_mut(C(Box::new(s))); *r.0 } _ => { ZQ.lock().unwrap().push_back(s); let _r = self.make_mut(Z); s } }
     }
+}
+
+#[unimock(api = HelpMock)]
+trait Help {
+    fn req(&self, s: u64) -> u64;
+    fn via_mut(&mut self, s: u64) -> u64 { self.req(s) }
+    fn via_ref(&self, s: u64) -> u64 { self.req(s) }
+}
+
+/// values lent through the delegation helpers of provided methods stay alive until the mock is torn down
+fn run_helper(n: usize, out: &mut impl Write) {
+    let mut u = Unimock::new(HelpMock::req.each_call(matching!(_)).answers(&|u, s| { u.make_ref(A(s)); s }));
+    let mut early = vec![];
+    let mut wrong = 0;
+    for k in 0..n {
+        let s = k as u64 + 1;
+        let r = if k % 3 == 2 { u.via_ref(s) } else { u.via_mut(s) };
+        if r != s { wrong += 1; }
+        let d = take_drops();
+        if !d.is_empty() { early.push(format!("after-call-{}:[{}]", k + 1, d)); }
+    }
+    drop(u);
+    let fin = take_drops();
+    writeln!(out, "helper n={} wrong={} early=[{}] dropped_at_teardown={}", n, wrong, early.join(";"), fin.split(',').filter(|x| !x.is_empty()).count()).unwrap();
 }
 
 fn take_drops() -> String {
@@ -205,7 +234,10 @@ fn main() {
                 writeln!(out, "scenario {name}").unwrap();
                 let _ = take_drops();
                 let res = std::panic::catch_unwind(std::panic::AssertUnwindSafe(|| {
-                if let Some(d) = ops.iter().find(|o| o[0] == "deep") {
+                if let Some(h) = ops.iter().find(|o| o[0] == "helper") {
+                    let t: Vec<&str> = h.iter().map(|s| s.as_str()).collect();
+                    run_helper(proto::kv_num(&t, "n"), &mut out);
+                } else if let Some(d) = ops.iter().find(|o| o[0] == "deep") {
                     // a long chain released by one make_mut, on a thread with a small stack: the release must not recurse per node
                     let t: Vec<&str> = d.iter().map(|s| s.as_str()).collect();
                     let (n, stack) = (proto::kv_num(&t, "n"), proto::kv_num(&t, "stack"));
